@@ -2393,7 +2393,8 @@ impl Formatter {
     if self.html {
       format!("<span class=\"mech-range-expression\"><span class=\"mech-range-start\">{}</span><span class=\"mech-range-operator\">{}</span><span class=\"mech-range-terminal\">{}</span>{}</span>",start,operator,terminal,increment)
     } else {
-      format!("{}{}{}{}", start, operator, terminal, increment)
+      // `a..s..=b`: the increment sits between the bounds
+      format!("{}{}{}{}", start, increment, operator, terminal)
     }
   }
 
